@@ -73,7 +73,22 @@ def stacks_for(env, ctx: Ctx, rng) -> list:
         if np.all(np.isfinite(np.asarray(env.observation_space.low))) and np.all(np.isfinite(np.asarray(env.observation_space.high))):
             st.append([("RescaleObservation", None)])
     st.append([("ClipReward", None), ("Identity", None)])
-    return st if ctx.thorough else st[:1] + rng.sample(st[1:], 2)
+    if ctx.thorough:
+        return st
+    # quick tier: the bare environment plus two stacks; which two is a fixed function of the environment class (not of the seed), chosen
+    # so that every wrapper kind occurs over some environment in every run
+    rest = st[1:]
+    want = {"CartPole": ("TimeLimit", "FlattenObservation"), "MountainCar": ("RescaleObservation", "ClipReward"),
+            "ContinuousMountainCar": ("ClipAction", "RescaleAction"), "Acrobot": ("RescaleObservation", "ClipObservation"),
+            "Pendulum": ("RescaleAction", "RescaleObservation")}.get(type(getattr(env, "unwrapped", env)).__name__)
+    if want:
+        def has(stack, kind):
+            return any(k == kind for k, _ in stack) and (kind != "TimeLimit" or len(stack) == 1)
+        pick = [next((x for x in rest if has(x, kind)), None) for kind in want]
+        if all(p is not None for p in pick):
+            return st[:1] + pick
+    i = sum(map(ord, type(getattr(env, "unwrapped", env)).__name__)) % len(rest)
+    return st[:1] + [rest[i], rest[(i + 1 + len(rest) // 2) % len(rest)]]
 
 
 def wrap(env, stack):
